@@ -200,6 +200,86 @@ func (o *OracleC04) probes(c *Chain, b *BlockCtx, v *View) []*Violation {
 			break
 		}
 	}
+	if len(out) > 0 {
+		return out
+	}
+	// ---- everybody claims everything, one after the other and twice, on ONE shared branch of the state: whatever
+	// order and repetition the chain accepts, no claim the ledger still lists may run into an empty account
+	shared, _ := v.ctx.CacheContext()
+	fails := func(site, f string, a ...any) {
+		class := "entitled-claim-fails-for-funds"
+		if reporterWithCommissionAboveOne(v) {
+			class += ":commission-rate-outside-0-1"
+		}
+		out = append(out, o.v(b.H, site, class, f, a...))
+	}
+	potPaid := map[uint64]*big.Int{}
+	for rep := 0; rep < 3 && len(out) == 0; rep++ {
+		for _, p := range v.FeePayers() {
+			d, ok := disp[p.ID]
+			if !ok || !(d.D.DisputeStatus == disputetypes.Failed || (d.V != nil && d.V.Executed)) {
+				continue
+			}
+			err := probeMsg(shared, func(x sdk.Context) error {
+				_, e := dms.WithdrawFeeRefund(x, &disputetypes.MsgWithdrawFeeRefund{CallerAddress: p.Payer.String(), PayerAddress: p.Payer.String(), Id: p.ID})
+				return e
+			})
+			o.count("drain_probe_calls")
+			if insufficient(err) {
+				fails("drain-probe-fee-refund", "when all parties claim in turn, payer %s of dispute %d (paid %s) cannot withdraw its refund: %v", p.Payer, p.ID, p.Info.Amount, err)
+				break
+			}
+		}
+		for _, vr := range v.Voters() {
+			if len(out) > 0 {
+				break
+			}
+			for _, d := range v.Disputes() {
+				if d.V == nil || !d.V.Executed {
+					continue
+				}
+				in := d.D.DisputeId == vr.ID
+				for _, pid := range d.D.PrevDisputeIds {
+					if pid == vr.ID {
+						in = true
+					}
+				}
+				if !in {
+					continue
+				}
+				before := app.BankKeeper.GetBalance(shared, vr.Voter, Denom).Amount
+				err := probeMsg(shared, func(x sdk.Context) error {
+					_, e := dms.ClaimReward(x, &disputetypes.MsgClaimReward{CallerAddress: vr.Voter.String(), DisputeId: d.D.DisputeId})
+					return e
+				})
+				o.count("drain_probe_calls")
+				if err == nil {
+					if potPaid[d.D.DisputeId] == nil {
+						potPaid[d.D.DisputeId] = new(big.Int)
+					}
+					potPaid[d.D.DisputeId].Add(potPaid[d.D.DisputeId], app.BankKeeper.GetBalance(shared, vr.Voter, Denom).Amount.Sub(before).BigInt())
+					if potPaid[d.D.DisputeId].Cmp(d.D.VoterReward.BigInt()) > 0 {
+						out = append(out, o.v(b.H, "drain-probe-claim-reward", "credits-exceed-voter-pot", "when all parties claim in turn (each claim tried three times), voters of dispute %d are paid %s out of a pot of %s", d.D.DisputeId, potPaid[d.D.DisputeId], d.D.VoterReward))
+						break
+					}
+				}
+				if insufficient(err) {
+					fails("drain-probe-claim-reward", "when all parties claim in turn, voter %s cannot claim its reward of dispute %d: %v", vr.Voter, d.D.DisputeId, err)
+					break
+				}
+			}
+		}
+	}
+	if len(out) == 0 {
+		// what is left after every accepted claim must still cover what the ledger still owes
+		sv := &View{c: v.c, n: v.n, ctx: shared}
+		liab, detail := o.disputeLiabilities(sv)
+		bal := sv.ModuleBalance("dispute").BigInt()
+		o.count("drain_probe_coverage_checks")
+		if bal.Cmp(liab) < 0 {
+			out = append(out, o.v(b.H, "drain-probe-coverage", "dispute-escrow-short-after-claims", "after every party claimed everything the chain lets it claim (each claim tried twice), the dispute account holds %s but still owes at least %s (%s)", bal, liab, detail))
+		}
+	}
 	return out
 }
 
